@@ -24,6 +24,28 @@ def showEv (e : C08.Ev) : String :=
 * `(fresh (<taken>))` → candidate chosen by the fixed `d_<var>` loop -/
 def handle (s : Sexp) : String :=
   match s with
+  | .list [.atom "partw", lv, w, o] =>
+    -- literal while-loop `_partition` on two subscript lists: `(partw (lvars) (w-subs) (o-subs))`
+    match (w.items.mapM parseExpr), (o.items.mapM parseExpr) with
+    | some ws, some os =>
+      match C08.partitionW lv.natList ws os with
+      | some ps => showList (fun q => "(" ++ showList toString q.1 ++ " " ++ showList toString q.2 ++ ")") ps
+      | none => "out-of-fuel"
+    | _, _ => "bad-subs"
+  | .list [.atom "par", l, dn, ord] =>
+    match parseStmt l with
+    | some (.loop v lo hi st body) =>
+      let dnames := pairs dn
+      let par := C08.canParallelise dnames v lo hi st body
+      let frag := C08.inFragment v lo hi st body
+      let msgs := C08.messages dnames v lo hi st body
+      let priv := (C08.wvars body).eraseDups.filter (C08.privScalar body)
+      let first := match C08.firstMessage ord.natList msgs with
+        | some m => s!"(({m.1} {m.2}))"
+        | none => "()"
+      "(" ++ (if par then "1" else "0") ++ " " ++ (if frag then "1" else "0") ++ " "
+        ++ showList (fun m => s!"({m.1} {m.2})") msgs ++ " " ++ showList toString priv ++ " " ++ first ++ ")"
+    | _ => "bad-loop"
   | .list [.atom "par", l, dn] =>
     match parseStmt l with
     | some (.loop v lo hi st body) =>
